@@ -357,7 +357,26 @@ def monitorsWALife (c : Case) (ls : List Line) : List String :=
       else if c.status == "ok" && started && fires.length == n && l.a != 1 then
         [s!"every child completed but the self-deleting operation state was destroyed {l.a} times (exactly once expected)"]
       else []
-  m0 ++ m1 ++ m2 ++ m3
+  -- the decision, recomputed from the raw log: the first non-value child to reach the flag (`wa.sig` with channel
+  -- 1 / 2; its completion is the last `fire.*` line of the same thread) decides; none = value
+  let rec firstNonValue : List Line → List (Nat × Nat × Int) → Option (Nat × Int)
+    | [], _ => none
+    | l :: rest, cur =>
+      if l.site.startsWith "fire." then
+        firstNonValue rest ((l.tid, (chOfSite l.site).getD 0, l.b) :: cur.filter (·.1 != l.tid))
+      else if l.site == "wa.sig" && l.a != 0 then
+        match cur.find? (·.1 == l.tid) with
+        | some (_, ch, arg) => some (ch, arg)
+        | none => some (l.a.toNat, 0)
+      else firstNonValue rest cur
+  let m4 := match rcvs.head?, firstNonValue ls [] with
+    | some r, some (ch, arg) =>
+      if ch == 1 then (if r.site == "rcv.stopped" then [] else [s!"the first non-value child to reach the flag was stopped, but {r.site} {r.b} was delivered"])
+      else if r.site == "rcv.error" && r.b == arg then [] else
+        [s!"the first non-value child to reach the flag failed with error {arg} (winner of the exchange), but {r.site} {r.b} was delivered"]
+    | some r, none => if r.site == "rcv.value" then [] else [s!"{r.site} delivered although no child failed or was stopped"]
+    | none, _ => []
+  m0 ++ m1 ++ m2 ++ m3 ++ m4
 
 def runWA (c : Case) (ls : List Line) : String :=
   let n := c.getNat "n"
